@@ -120,7 +120,8 @@ def check_type(P, ctx, T):
                     res = ('local', n['decl']['name'])
                     good = bool(rets) and all(ir.canon(x['expr']) == res for x in rets)
                 else:
-                    good = bool(rets) and all(x is n or ir.canon(x['expr']) == ir.canon(c) for x in rets) and n['kind'] == 'ret'
+                    # the returned expression is the call itself (modulo conversions), not a combination with something else
+                    good = bool(rets) and all(x['expr'] is not None and ir.canon(x['expr']) == ir.canon(c) for x in rets) and n['kind'] == 'ret'
                 ctx.check(good, 'C20.delegation', key + ':result', site(fn), 'the value returned is %s\'s result' % lib)
     # ---- close-once
     closef = P.slot(T, 'Stream', 'sclose')
